@@ -251,7 +251,10 @@ ADDENDA3 = {
         "MultiStreams lacking a phase, different kinds of calculation in succession, Stream.vlle and the class VLLE (pooling + VLE/LLE steps), mix_from(vle=True)/Stream.sum(vle=True) with "
         "reduce_phases; three former ASSUMPTIONS are now proved on thermosteam's own code: the LLE solver stays in its box (solve_lle_liquid_mol, pseudo_equilibrium and its loops, shgo/DE bounds), "
         "phase_fraction/as_valid_fraction/Rachford-Rice return a value in [0,1], solve_vle_vapor_mol_shgo with only scipy's shgo assumed; real histories (mode B).",
- 'C04': "Third session: see C04_gap.py groups in the evidence.",
+ 'C04': "Third session (C04_gap.py): histories on one VLE object (remembered index lists, bubble/dew objects, single-chemical shortcut, T/P/F_mol), Stream.vle on l/g/s streams, "
+        "MultiStream.vle when a phase is missing or the phases changed after a flash, VLE built by hand, copies of flashed streams, reads by name/position/phase proxies, locked chemicals "
+        "first in the package in the boundary rule and the PH/PS correction, T,H / T,S on a single chemical proved exactly (mode S); ideal package for (T,V), (P,H), (P,S), (T,H), (T,S), "
+        "scaling for the other specification pairs, method='shgo' (mode B). 1 more defect repaired (shgo returned a corner).",
  'C05': "Third session (C05_gap.py): KineticReaction, Reaction.conversion, reset_chemicals of sets/items, items and slices applied through __call__, nested ReactionSystem, reactant_flux, "
         "CHECK_FEASIBILITY=False, 2-d mass views, correct_atomic_balance; histories on real balanced reactions (mode B: every operation sequence of length <= 2-3 over 14 programs). 3 more defects repaired.",
  'C06': "Third session (C06_gap.py): dH of objects produced by copy/backwards/reset_chemicals/X and product_yield setters/string parsers, members of copied and sliced sets, Hf revised later; "
